@@ -291,6 +291,39 @@ func ruleStoreAdmission(c *Ctx) {
 		return ok && (resultOfCall(getAddrS)(b.X) || resultOfCall(getAddrS)(b.Y)) && (resultOfCall(getAddrM)(b.X) || resultOfCall(getAddrM)(b.Y))
 	}, []Ev{guardCall("!IsTombstone()", false, callMatcher(isTomb)), guardCall("!IsPhysicallyDestroyed()", false, callMatcher(isDestroyed))}, all,
 		"only tombstone or physically destroyed stores are skipped by the duplicate-address test")
+	// a re-registration keeps the store's lifecycle state: what is stored for a known id is a clone of the
+	// registered store (address, version, labels, start time updated), never a fresh record built from the request —
+	// the request always says Up
+	getStore := F(P.Method("server/cluster", "RaftCluster", "GetStore"))
+	putLocked := F(P.Method("server/cluster", "RaftCluster", "putStoreLocked"))
+	clone := F(P.Method("server/core", "StoreInfo", "Clone"))
+	isCloneOfRegistered := func(v ssa.Value) bool {
+		cl, _ := callOf(v)
+		if cl == nil || !clone.Match(cl.Common()) || len(cl.Call.Args) == 0 {
+			return false
+		}
+		return derivesFrom(cl.Call.Args[0], resultOfCall(getStore), 3)
+	}
+	for _, ci := range callsIn(impl, false, putLocked) {
+		a := callArgs(ci.Common())
+		if len(a) != 1 {
+			continue
+		}
+		unknown := guardRel("no store registered under the id", "==", resultOfCall(getStore), isNilConst)
+		evs := []Ev{unknown}
+		formula := func(h []bool) bool { return h[0] }
+		if isCloneOfRegistered(a[0]) {
+			formula = func(h []bool) bool { return true }
+		} else if phi, ok := a[0].(*ssa.Phi); ok {
+			trackPhis[impl] = append(trackPhis[impl], phi)
+			evs = append(evs, &calledEv{name: "the record is a clone of the registered store", match: func(x ssa.Instruction) bool { return x == ssa.Instruction(phi) && isCloneOfRegistered(resolved(phi)) },
+				reset: func(x ssa.Instruction) bool { return x == ssa.Instruction(phi) }})
+			formula = func(h []bool) bool { return h[0] || h[1] }
+		}
+		target := ci.(ssa.Instruction)
+		c.need(rule, impl, "record handed to putStoreLocked", func(x ssa.Instruction) bool { return x == target }, evs, formula,
+			"for a known id the stored record is a clone of the registered store, so the lifecycle state survives a re-registration")
+	}
 	// the RPC layer refuses tombstones
 	check := P.Func("server", "checkStore")
 	getState := F(P.Method("server/core", "StoreInfo", "GetState"))
